@@ -28,7 +28,23 @@ pub struct Case {
 }
 
 pub fn check(c: &Case, stats: &mut Stats) -> CheckResult {
-    let exp = expected_facts(&c.facts, c.path);
+    let mut exp = expected_facts(&c.facts, c.path);
+    // calls may spell the name of a record differently (also as the empty string): the record keeps the name of
+    // the first call that mentions it
+    if matches!(c.path, PathSel::Builder | PathSel::BuilderDefaults) && c.facts.ann_calls.iter().any(|a| a.alt_name.is_some()) {
+        for k in 0..3 {
+            for r in exp.recs[k].iter_mut() {
+                if let Some(first) = c.facts.ann_calls.iter().find(|a| a.kind as usize == k && a.rec == r.id) {
+                    if let Some(n) = &first.alt_name {
+                        if n.is_empty() && !r.name.is_empty() {
+                            stats.label("record-first-named-by-the-empty-string");
+                        }
+                        r.name = n.clone();
+                    }
+                }
+            }
+        }
+    }
     // (half of the Builder cases interleave calls that fail and are ignored by the caller)
     let with_failing_calls = c.path == PathSel::Builder && c.keys.len() % 2 == 1;
     let built = if with_failing_calls { via_builder_with_failing_calls(&c.facts, Finish::Minimal) } else { build_path(&c.facts, c.path, &JaxNoise::default()) };
@@ -342,6 +358,22 @@ fn strategy(tier: Tier) -> BoxedStrategy<Case> {
                     queries.push(n[chars[a.min(b)]..chars[a.max(b)]].to_string());
                 }
             }
+            // Builder path: some calls spell the record name differently; in particular the first call for a record
+            // may carry the empty string and a later one the name
+            if path == PathSel::Builder && keys.len() % 3 == 0 {
+                let base: Vec<String> = facts.ann_calls.iter().map(|a| facts.rec_name(a.kind as usize, a.rec).to_string()).collect();
+                let mut seen = BTreeSet::new();
+                for (i, a) in facts.ann_calls.iter_mut().enumerate() {
+                    let first = seen.insert((a.kind, a.rec));
+                    let sel = (i + keys.len() + queries.len()) % 4;
+                    a.alt_name = match (first, sel) {
+                        (true, 0) => Some(String::new()),
+                        (false, 1) => Some(format!("{} (later spelling)", base[i])),
+                        (true, 2) => Some(format!("{}x", base[i])),
+                        _ => None,
+                    };
+                }
+            }
             Case { facts, path, keys, queries, sweep }
         })
         .boxed()
@@ -352,7 +384,7 @@ impl Property for C10 {
         "C10"
     }
     fn rule(&self) -> String {
-        "Generated: ontologies with dense / sparse / border id sets (0, 1, 9_999_999), duplicated new_term calls (first wins), 0-6 records per kind with short names from a tiny alphabet (duplicates, names that are substrings of one another, multi-byte), built through the Builder (free-form), own v1 / v2 / v3 bytes (flags, replacements), the as_bytes round trip or rendered JAX files. Keys: every present id, present±1, {0,1,9_999_999,10^7,10^7+1,2^31,u32::MAX}, generated u32. A generated fraction of cases sweeps ALL 10^7 ids plus 2^20 pseudo-random larger values. Deterministic sub-sweep: ontologies with 65_536 and 70_000 (thorough also 131_073 and 200_000) terms, inserted in descending id order, every id of the id space looked up. Oracle: hpo(k) is Some iff k was added, and carries id/name/flags of the first addition; iter/hpos/&ont yield every id once and agree with len; gene/omim/orpha lookups by id exact per kind; gene_by_name exact match or None iff none; omim_diseases_by_name = exactly the diseases whose name contains the query (queries: names, substrings on char boundaries, '', absent strings); omim_disease_by_name one of them or None iff none. evaluations = keys + swept ids + queries. Non-trivial = id set contains 0 or 9_999_999 or two adjacent ids; distinct by hash(facts, queries, path).".into()
+        "Generated: ontologies with dense / sparse / border id sets (0, 1, 9_999_999), duplicated new_term calls (first wins), 0-6 records per kind with short names from a tiny alphabet (duplicates, names that are substrings of one another, multi-byte), built through the Builder (free-form; calls may spell a record's name differently, the first call - possibly with the empty string - names it), own v1 / v2 / v3 bytes (flags, replacements), the as_bytes round trip or rendered JAX files. Keys: every present id, present±1, {0,1,9_999_999,10^7,10^7+1,2^31,u32::MAX}, generated u32. A generated fraction of cases sweeps ALL 10^7 ids plus 2^20 pseudo-random larger values. Deterministic sub-sweep: ontologies with 65_536 and 70_000 (thorough also 131_073 and 200_000) terms, inserted in descending id order, every id of the id space looked up. Oracle: hpo(k) is Some iff k was added, and carries id/name/flags of the first addition; iter/hpos/&ont yield every id once and agree with len; gene/omim/orpha lookups by id exact per kind; gene_by_name exact match or None iff none; omim_diseases_by_name = exactly the diseases whose name contains the query (queries: names, substrings on char boundaries, '', absent strings); omim_disease_by_name one of them or None iff none. evaluations = keys + swept ids + queries. Non-trivial = id set contains 0 or 9_999_999 or two adjacent ids; distinct by hash(facts, queries, path).".into()
     }
     fn assumptions(&self) -> Vec<String> {
         vec![
@@ -367,7 +399,7 @@ impl Property for C10 {
         }
     }
     fn required_labels(&self, _tier: Tier) -> Vec<&'static str> {
-        vec!["nontrivial", "bulk>65535-terms", "full-sweep", "id0", "id9999999", "adjacent-ids", "duplicate-new_term", "duplicate-gene-names", "query-matches-several-not-all", "builder-with-ignored-failing-calls"]
+        vec!["nontrivial", "bulk>65535-terms", "full-sweep", "id0", "id9999999", "adjacent-ids", "duplicate-new_term", "duplicate-gene-names", "query-matches-several-not-all", "builder-with-ignored-failing-calls", "record-first-named-by-the-empty-string"]
     }
     fn run_generated(&self, tier: Tier, seed: u64, n: u64, stats: &mut Stats) -> Option<(Value, Failure)> {
         run_typed(strategy(tier), seed, n, stats, check)
